@@ -12,8 +12,8 @@
 use either_of::Either;
 use reactive_graph::{
     computed::Memo,
-    owner::Owner,
-    signal::RwSignal,
+    owner::{on_cleanup, Owner},
+    signal::{ArcRwSignal, RwSignal},
     traits::{Get, GetUntracked, Set},
 };
 use std::{
@@ -31,10 +31,12 @@ use tachys::{
         element::{div, ElementChild},
         style::style,
     },
+    reactive_graph::{OwnedView, Suspend},
     renderer::dom::{Dom, Kind, Node},
     view::{
         add_attr::AddAnyAttr,
         any_view::{AnyView, IntoAny},
+        keyed::keyed,
         Mountable, Render,
     },
 };
@@ -164,6 +166,10 @@ enum V {
     Text(i64, E),
     Elem(Vec<(i64, i64, E)>, Vec<V>),
     If(i64, bool, E, Arc<V>, Arc<V>),
+    /// `move || { let a = sync_expr; Suspend::new(async move { wait; a + async_expr }) }`
+    Async(i64, E, E),
+    /// `move || keyed(lists[signal], key = item, row = "index*100 + item")` (the ForEnumerate shape)
+    Keyed(i64, usize, Vec<Vec<i64>>),
 }
 
 fn dec_expr(s: &Sexp) -> E {
@@ -181,6 +187,8 @@ fn dec_view(s: &Sexp) -> V {
             s.at(1).list().iter().map(|p| (p.at(0).num(), p.at(1).num(), dec_expr(p.at(2)))).collect(),
             s.at(2).list().iter().map(dec_view).collect(),
         ),
+        4 => V::Async(s.at(1).num(), dec_expr(s.at(2)), dec_expr(s.at(3))),
+        5 => V::Keyed(s.at(1).num(), s.at(2).num() as usize, s.at(3).list().iter().map(|l| l.nums()).collect()),
         _ => V::If(
             s.at(1).num(),
             s.at(2).num() != 0,
@@ -194,6 +202,36 @@ fn dec_view(s: &Sexp) -> V {
 static LOG: Mutex<Vec<i64>> = Mutex::new(Vec::new());
 fn log(l: i64) {
     LOG.lock().unwrap().push(l);
+}
+/// log entry of the `on_cleanup` callback a text closure with label `l` registers on every run
+const CLEANUP: i64 = 500;
+
+/// the futures of the async leaves, in creation order; `None` once completed
+static FUTURES: Mutex<Vec<Option<futures::channel::oneshot::Sender<()>>>> = Mutex::new(Vec::new());
+thread_local! {
+    /// fresh mounts: async leaves resolve at once
+    static FRESH: std::cell::Cell<bool> = const { std::cell::Cell::new(false) };
+}
+fn new_future() -> Option<futures::channel::oneshot::Receiver<()>> {
+    if FRESH.with(|r| r.get()) {
+        return None;
+    }
+    let (tx, rx) = futures::channel::oneshot::channel();
+    FUTURES.lock().unwrap().push(Some(tx));
+    Some(rx)
+}
+/// complete the `k mod n`-th of the `n` outstanding futures (oldest first); false if none is left
+fn complete(k: i64) -> bool {
+    let mut f = FUTURES.lock().unwrap();
+    let open: Vec<usize> = f.iter().enumerate().filter(|(_, t)| t.is_some()).map(|(i, _)| i).collect();
+    if open.is_empty() {
+        return false;
+    }
+    let i = open[k.rem_euclid(open.len() as i64) as usize];
+    let tx = f[i].take().unwrap();
+    drop(f);
+    let _ = tx.send(());
+    true
 }
 
 type Sigs = Arc<Vec<RwSignal<i64>>>;
@@ -236,7 +274,46 @@ fn mk(v: &V, s: &Sigs) -> AnyView {
             let (l, e, s) = (*l, e.clone(), s.clone());
             (move || {
                 log(l);
+                on_cleanup(move || log(l + CLEANUP));
                 eval(&e, &s).to_string()
+            })
+            .into_any()
+        }
+        V::Async(l, es, ea) => {
+            let (l, es, ea, s) = (*l, es.clone(), ea.clone(), s.clone());
+            (move || {
+                log(l);
+                let a = eval(&es, &s);
+                let rx = new_future();
+                let (ea, s) = (ea.clone(), s.clone());
+                Suspend::new(async move {
+                    if let Some(rx) = rx {
+                        let _ = rx.await;
+                    }
+                    (a + eval(&ea, &s)).to_string()
+                })
+            })
+            .into_any()
+        }
+        V::Keyed(l, i, lists) => {
+            let (l, i, lists, s) = (*l, *i, lists.clone(), s.clone());
+            let parent = Owner::current().expect("no reactive owner");
+            (move || {
+                log(l);
+                let n = s.get(i).map(|x| x.get()).unwrap_or(0);
+                let items = if lists.is_empty() { vec![] } else { lists[n.rem_euclid(lists.len() as i64) as usize].clone() };
+                let parent = parent.clone();
+                keyed(
+                    items,
+                    |k: &i64| *k,
+                    move |idx: usize, item: i64| {
+                        let owner = parent.with(Owner::new);
+                        let index = ArcRwSignal::new(idx);
+                        let set = index.clone();
+                        let view = owner.with(|| move || (index.get() as i64 * 100 + item).to_string());
+                        (move |i: usize| set.set(i), OwnedView::new_with_owner(view, owner))
+                    },
+                )
             })
             .into_any()
         }
@@ -352,14 +429,33 @@ fn top(root: &Node, prev: &HashMap<u64, u64>, with_status: bool) -> (Sexp, HashM
     let mut cur = HashMap::new();
     let kids: Vec<Sexp> = root.children().iter().filter_map(|c| snap(c, prev, with_status, &mut cur)).collect();
     // every view renders to exactly one node; anything else is reported as a list
-    let s = if kids.len() == 1 { kids.into_iter().next().unwrap() } else { Lst(vec![Num(-9), Lst(kids)]) };
+    let s = if EXT.with(|e| e.get()) {
+        Lst(kids)
+    } else if kids.len() == 1 {
+        kids.into_iter().next().unwrap()
+    } else {
+        Lst(vec![Num(-9), Lst(kids)])
+    };
     (s, cur)
 }
 
+thread_local! {
+    /// extended cases (async leaves / keyed lists): a snapshot is the list of the root's nodes
+    static EXT: std::cell::Cell<bool> = const { std::cell::Cell::new(false) };
+}
+
+/// case `(view sigs steps)` or, extended, `(view sigs steps (drain))`: then a step is
+/// `(writes picks completions)` — after the writes and the polls, each completion `k` resolves the
+/// `k mod n`-th outstanding future (oldest first) and the executor runs until idle again — and after
+/// the last step all outstanding futures are resolved (`drain` 0: oldest first, 1: newest first),
+/// which yields one more observation entry.
 pub fn run(c: &Sexp) -> Sexp {
     exec::init();
     exec::reset();
     LOG.lock().unwrap().clear();
+    FUTURES.lock().unwrap().clear();
+    let ext = c.list().len() > 3;
+    EXT.with(|e| e.set(ext));
     let owner = Owner::new();
     owner.set();
     let view = dec_view(c.at(0));
@@ -382,8 +478,21 @@ pub fn run(c: &Sexp) -> Sexp {
             }
         }
         exec::run_all(&step.at(1).nums());
+        for k in step.at(2).nums() {
+            if complete(k) {
+                exec::run_all(&[]);
+            }
+        }
         let (s, cur) = top(&root, &prev, true);
         prev = cur;
+        out.push((take_log(), s, values(&sigs)));
+    }
+    if ext {
+        let newest_first = c.at(3).at(0).num() != 0;
+        while complete(if newest_first { -1 } else { 0 }) {
+            exec::run_all(&[]);
+        }
+        let (s, _) = top(&root, &prev, true);
         out.push((take_log(), s, values(&sigs)));
     }
 
@@ -396,7 +505,9 @@ pub fn run(c: &Sexp) -> Sexp {
             sig.set(*v);
         }
         let fresh_root = Dom::create_element("div", None);
+        FRESH.with(|r| r.set(true));
         let mut fresh = mk(&view, &sigs).build();
+        FRESH.with(|r| r.set(false));
         fresh.mount(&fresh_root, None);
         let (f, _) = top(&fresh_root, &HashMap::new(), false);
         let eq = plain(&shot) == f;
@@ -412,6 +523,9 @@ pub fn run(c: &Sexp) -> Sexp {
 }
 
 fn strip_status(s: &Sexp) -> Sexp {
+    if EXT.with(|e| e.get()) && !matches!(s.at(0), Num(_)) {
+        return Lst(s.list().iter().map(strip_status).collect());
+    }
     match s.at(0).num() {
         0 => Lst(vec![Num(0), s.at(1).clone(), Num(0)]),
         1 => Lst(vec![Num(1), s.at(1).clone(), Num(0), Lst(s.at(3).list().iter().map(strip_status).collect())]),
